@@ -120,7 +120,7 @@ PROPS = {
         assumptions=["callers on several threads are modelled by the Alloc / Enqueue split of Start (id taken under the shared mutex, request handed to the driver later; exercised on the real code through the hook verif_hold_next_alloc); true parallelism inside next_msgid itself is the mutex's business (oracle-only mt lane)", "theorems over whole histories: below the wrap-around of the 31-bit id counter (beyond it: the id-table hook lane)"],
     ),
     "C04": dict(
-        groups=[("faults", 264, 1600), ("conn", 300, 20000), ("tls", 60, 400), ("pagedlost", 100, 4000), ("wstall", 3, 3)],
+        groups=[("faults", 264, 1600), ("conn", 300, 20000), ("tls", 60, 400), ("pagedlost", 100, 4000), ("wstall", 3, 3), ("mtclose", 100000, 600000)],
         exact_lanes=["msgid"],
         rule="scripts of 3-16 steps over the real driver (current-thread runtime, paused clock, in-memory transport): start single/direct-search/adapted-search/abandon/unbind operations on cloned handles with and without timeouts (0, 1, 1000, 5000 ms), one start in five held between id allocation and the send to the driver while other operations overtake it, server responses for live, finished and unknown ids (entries, references, intermediates, done, other ops) delivered in two writes, clock advances around the deadlines, next()/finish() calls, EOF / garbage / read error / write error / partial message / handle drop; observation after EVERY step (per-op status and delivered tokens, request log, id table, routing gauges, driver result). non-trivial = distinct script in which at least one operation completed. fault lane: three fixed exchanges x every prefix x 8 fault kinds (EOF, garbage, read error, write error, partial message + EOF/error, handle drop, unbind)",
         trivial=[],
